@@ -17,6 +17,7 @@ ASSUMPTIONS = simnet.ASSUMPTIONS + ["external dispatcher: a minimal event loop o
                                     "(the interface WrappedDispatcher uses)"]
 
 OUTCOMES = ("refused", "rejected", "eof", "reset", "pingtimeout")
+MID_OUTCOMES = ("eof-midfrag", "eof-midframe")  # connection lost between the fragments of a message / inside a frame
 
 
 def _answer_ping(server, data):
@@ -38,6 +39,12 @@ def _specs(seq, final):
         elif oc == "eof":
             specs.append({"script": [(1, server_frame(1, 2, bytes([0x41 + i]))), (1, "EOF")], "on_frame_bytes": _answer_ping})
             loss_after.append(2)
+        elif oc == "eof-midfrag":
+            specs.append({"script": [(1, server_frame(1, 2, bytes([0x41 + i]))), (1, server_frame(0, 1, b"par")), (1, "EOF")], "on_frame_bytes": _answer_ping})
+            loss_after.append(3)
+        elif oc == "eof-midframe":
+            specs.append({"script": [(1, server_frame(1, 2, bytes([0x41 + i]))), (1, bytes([0x82, 9, 1, 2, 3])), (1, "EOF")], "on_frame_bytes": _answer_ping})
+            loss_after.append(3)
         elif oc == "reset":
             specs.append({"script": [(1, server_frame(1, 2, bytes([0x41 + i]))), (1, "RESET")], "on_frame_bytes": _answer_ping})
             loss_after.append(2)
@@ -263,6 +270,10 @@ def obligations(tier):
                 continue
             for final in ("close", "userclose"):
                 seqs.append(dict(seq=list(seq), final=final))
+    for mo in MID_OUTCOMES:
+        for final in ("close", "userclose"):
+            seqs.append(dict(seq=[mo], final=final))
+            seqs.append(dict(seq=[mo, "refused", mo], final=final))
     extra = [dict(seq=["eof", "refused"], final="close", on_reconnect=False), dict(seq=["reset"], final="userclose", on_reconnect=False),
              dict(seq=["eof"], final="close", default=True), dict(seq=["refused", "eof"], final="userclose", default=True),
              dict(seq=["eof", "eof"], final="close", ping=True), dict(seq=["reset", "refused"], final="userclose", ping=True)]
